@@ -98,7 +98,7 @@ static inline std::string gen_doc(Rng & r, const DocOpts & o) {
 		d += "Title: " + gen_words(r, 1 + (int)r.below(3)) + "\n";
 		if (r.chance(1, 2)) d += "Author: " + gen_words(r, 2) + "\n";
 		if (r.chance(1, 3)) d += "Base Header Level: " + std::to_string(1 + r.below(3)) + "\n";
-		if (r.chance(1, 3)) d += "Language: " + std::string(r.chance(1, 2) ? "de" : "fr") + "\n";
+		if (r.chance(1, 2)) d += "Language: " + std::string(r.chance(1, 2) ? "de" : r.chance(1, 2) ? "fr" : "sv") + "\n";
 		if (r.chance(1, 4)) d += "CSS: style.css\n";
 		if (r.chance(1, 4)) d += "Quotes Language: " + std::string(r.chance(1, 2) ? "german" : "swedish") + "\n";
 		if (r.chance(1, 5)) d += "custom key: value with *markup*\n    continued line\n";
